@@ -378,6 +378,8 @@ def xrewLine (s : HistState) (t : List String) : Option String :=
     let cap := U64_MAX / 4
     let r := s.pool.rewards.getD idx {}
     if idx ≥ 3 || (kind != "cproto" && !r.initialized) then pure "err RewardNotInitialized"
+    else if kind == "crew" && (posGet s.positions id).isNone then pure "err NoSuchPosition"
+    else if auth ≥ 3 then pure "err ConstraintAddress"   -- a copy of the vault at another address (C15)
     else if kind == "emis" then
       if auth = 2 then pure "err AccountNotSigner"
       else if auth = 1 then pure "err ConstraintAddress"
